@@ -72,6 +72,13 @@ fn gen_c<C: Suite>(seed: u64, run: u64, tier: Tier) -> Scenario {
             _ => p.range(2, n as u64) as u16,
         };
     }
+    // rare wide worlds: participant and signer counts beyond 8-bit boundaries (dealer keys only; cheap for small t)
+    let mut wide = false;
+    if C::COST <= 2 && keygen != 2 && p.chance(1, if tier == Tier::Quick { 250 } else { 400 }) {
+        n = *p.pick(&[33u16, 64, 65, 130, 256, 257, 300]);
+        t = (*p.pick(&[2u16, 3, 17, 33, 129])).min(n);
+        wide = true;
+    }
     if keygen == 2 {
         // DKG costs O(n^2 t) scalar multiplications
         let cap = match (tier, slow) {
@@ -96,6 +103,17 @@ fn gen_c<C: Suite>(seed: u64, run: u64, tier: Tier) -> Scenario {
         _ => Inst::Dkg,
     }]);
     let pool: Vec<usize> = (0..n as usize).collect();
+    if wide {
+        // one session, exactly t signers or slightly more, random members
+        let k = (t as usize + p.below(3) as usize).min(n as usize);
+        let mut sg: Vec<usize> = p.subset(n as usize, k);
+        p.shuffle(&mut sg);
+        s.phases.push(vec![Inst::Sign { signers: sg, msg_hex: hexs(&gen_message(&mut p)), mode: SignMode::Plain }]);
+        s.sched = Sched::Random;
+        let mut fp = stream(seed, run, "faults");
+        s.faults = gen_honest_faults(&mut fp, &s, 3, 0b00111);
+        return s;
+    }
     let sign_phases = p.range(1, 2);
     for _ in 0..sign_phases {
         let concurrent = match p.below(4) {
@@ -203,6 +221,9 @@ fn exec_c<C: Suite>(scen: &Scenario) -> Exec {
     }
     if scen.n >= 20 {
         rep.probe("n_ge_20");
+    }
+    if scen.n >= 256 {
+        rep.probe("n_ge_256");
     }
     rep.probe_n("sessions", sessions);
     rep.nontrivial = sessions > 0;
